@@ -165,6 +165,7 @@ class history {
     scan_rate = a.dbl("scanrate", g_prop == "C02" ? 0.35 : 0.06);
     if (a.num("full256", 1) != 0 && r.chance(0.07)) make_full256();
     else if (std::is_same_v<K, unodb::key_view> && a.num("longtail", 1) != 0 && r.chance(0.06)) make_longtail();
+    else if (std::is_same_v<K, unodb::key_view> && a.num("spine", 1) != 0 && r.chance(0.05)) make_spine();
     a_prefix_bounds = a.num("prefixbounds", 1) != 0;
     tag = std::string(I::name) + "." + keyconv<K>::name;
     if constexpr (I::olc) with_companion = a.num("companion", 1) != 0 && r.chance(0.5);
@@ -240,6 +241,35 @@ class history {
       uni.keys.push_back(k);
     }
     std::sort(uni.keys.begin(), uni.keys.end(), vm::byte_less{});
+  }
+
+  // "spine": one long pseudo-random key (300..700 bytes) and keys that leave it every <= 8 bytes, so that the tree is a
+  // chain of dozens of inner nodes and tree depths go far beyond 255 (where an 8-bit depth or offset would wrap)
+  void make_spine() {
+    uni = vu::universe{};
+    uni.u64 = false;
+    uni.family = "spine";
+    uni.sh = vu::shape::FIXED;
+    const std::size_t len = 300 + r.below(400);
+    uni.len = len;
+    bytes spine(len, '\0');
+    for (auto& c : spine) c = static_cast<char>(r.below(256));
+    uni.keys.push_back(spine);
+    spine_order.push_back(spine);
+    std::size_t o = r.below(8);
+    while (o + 1 < len) {
+      bytes k = spine.substr(0, o);
+      k += static_cast<char>(static_cast<unsigned char>(spine[o]) ^ (1U + static_cast<unsigned>(r.below(255))));
+      const auto tail = r.below(6);
+      for (u64 i = 0; i < tail; ++i) k += static_cast<char>(r.below(256));
+      uni.keys.push_back(k);
+      spine_order.push_back(k);
+      o += 1 + r.below(8);  // the next branch point at most 8 bytes further: compressed paths stay <= 7 bytes while all are present
+    }
+    std::sort(uni.keys.begin(), uni.keys.end(), vm::byte_less{});
+    uni.keys.erase(std::unique(uni.keys.begin(), uni.keys.end()), uni.keys.end());
+    nops = std::max<std::size_t>(nops, 500);
+    spine_mode = true;
   }
 
   // the first absent key of the universe at or after a random position (full256 fill steps)
@@ -326,6 +356,20 @@ class history {
     return false;
   }
 
+  // spine histories: grow the chain top-down (the next branch key in offset order is the admissible one), take it down
+  // bottom-up now and then; everything else is an ordinary step
+  bool spine_step(int x) {
+    const bool growing = (op / 120) % 2 == 0;
+    if (x < 70 && growing) {
+      for (const auto& k : spine_order)
+        if (model.count(k) == 0) { forced_key = k; have_forced = true; do_insert(); have_forced = false; rep().count("spine_inserts"); return true; }
+    } else if (x < 60 && !growing) {
+      for (auto it = spine_order.rbegin(); it != spine_order.rend(); ++it)
+        if (model.count(*it) != 0 && *it != spine_order.front()) { forced_key = *it; have_forced = true; do_remove(); have_forced = false; return true; }
+    }
+    return false;
+  }
+
   bytes random_value() {
     const auto m = r.below(100);
     std::size_t n = m < 10 ? 0 : (m < 80 ? 1 + r.below(24) : (m < 99 ? r.below(301) : 65536));
@@ -347,6 +391,7 @@ class history {
     static const int w_ins[3] = {62, 10, 36}, w_rem[3] = {8, 62, 36};
     const auto x = static_cast<int>(r.below(100));
     if (full256 && full256_step(x)) {
+    } else if (spine_mode && spine_step(x)) {
     } else if (x < w_ins[pk]) do_insert();
     else if (x < w_ins[pk] + w_rem[pk]) do_remove();
     else if (x < 94) do_get();
@@ -397,6 +442,7 @@ class history {
     if (comp != nullptr) deferred_possible = true;
     bytes k = r.chance(0.12) && !model.empty() ? pick_present() : r.pick(uni.keys);
     if (force_absent) { force_absent = false; (void)pick_absent(&k); }
+    if (have_forced) k = forced_key;
     if (!admissible_after_insert(k)) { rep().count("inadmissible_steps_replaced"); return do_get(); }
     const bytes v = random_value();
     const bool want = model.count(k) == 0;
@@ -419,6 +465,7 @@ class history {
   void do_remove() {
     if (comp != nullptr) deferred_possible = true;
     bytes k = !model.empty() && r.chance(0.8) ? pick_present() : r.pick(uni.keys);
+    if (have_forced) k = forced_key;
     if (!admissible_after_remove(k)) { rep().count("inadmissible_steps_replaced"); return do_get(); }
     const bool want = model.count(k) != 0;
     // views into the entry end with it (olc: single registered thread frees at once)
@@ -908,7 +955,9 @@ class history {
   unsigned classes_seen{0}, deepest{0};
   int scan_samples{0};
   std::size_t base_live{vm::alloc_tracker::get().bytes_live()};
-  bool full256{false}, force_absent{false};
+  bool full256{false}, force_absent{false}, spine_mode{false}, have_forced{false};
+  bytes forced_key;
+  std::vector<bytes> spine_order;
   bool a_prefix_bounds{true};
   bool with_companion{false};
   bool deferred_possible{false};  // something may have been retired since the last drain
